@@ -285,7 +285,32 @@ def splice_fn(repo, file, item_path, sections, trait=None, nth=0, opts=(), canar
     body_close = item.end_idx
     loops = rs.loops_in(toks, body_open, body_close)
     used = 0
+    # X7 statement abstraction: `//@replace K` holds the exact source text of one or more statements (compared
+    # token by token, whitespace and comments ignored); `//@with K` the environment call that stands for them.
+    # The replaced text is an ASSUMED part of the function (listed in evidence); a change to it loses the anchor.
+    repl_keys = sorted(k for k in sections if k.startswith('replace '))
+    for rk in repl_keys:
+        kk = rk.split()[1]
+        if 'with ' + kk not in sections:
+            raise AnchorLost('template: //@replace %s without //@with %s' % (kk, kk))
+        want = [t.text for t in rs.tokenize(sections[rk]) if t.kind not in ('ws', 'comment', 'doc')]
+        body_ci = [k for k in range(body_open + 1, body_close) if toks[k].kind not in ('ws', 'comment', 'doc')]
+        hits = []
+        for p0 in range(0, len(body_ci) - len(want) + 1):
+            if toks[body_ci[p0]].text != want[0]:
+                continue
+            if all(toks[body_ci[p0 + j]].text == want[j] for j in range(len(want))):
+                hits.append(p0)
+        if len(hits) != 1:
+            raise AnchorLost('%s: //@replace %s matches %d times (statement text changed?)' % (item_path, kk, len(hits)))
+        a_idx, b_idx = body_ci[hits[0]], body_ci[hits[0] + len(want) - 1]
+        ed.replace(a_idx, b_idx, sections['with ' + kk].strip())
+        rules['X7-replace'] = rules.get('X7-replace', 0) + 1
+        dropped.append('%s:%d statement replaced by an assumed environment call (X7): %s' % (
+            file, toks[a_idx].line, ' '.join(sections[rk].split())[:300]))
     for key, text in sections.items():
+        if key.startswith('replace ') or key.startswith('with '):
+            continue
         if not text.strip() and key != 'spec' and not key.startswith('ret '):
             continue
         used += 1
